@@ -18,6 +18,7 @@ fn run_case(fam: &str, args: &[i128]) -> Vec<i128> {
         "csm" => csm::run(args),
         "causal" => causal::run(args, 1),
         "causalrm" => causal::run_rm(args, 1, true),
+        "causalrm2" => causal::run_rm2(args, 1, true, true),
         "causalconc" => causal::run_conc(args),
         f if f.starts_with("causal_") => causal::run(args, f[7..].parse().unwrap()),
         "collections" => collections::run(args),
